@@ -494,7 +494,10 @@ pub fn check_main(prop: &str, tier: Tier) -> i32 {
         }
     };
 
-    if !result.nondeterministic.is_empty() {
+    // For C15 a result that differs between two executions of the same call is the property's own
+    // business (detected in-band by the isolation table, which runs every call on six fresh threads);
+    // for every other property it means the harness is not deterministic.
+    if !result.nondeterministic.is_empty() && prop != "C15" {
         eprintln!(
             "HARNESS ERROR: {} sampled cases produced a different event log when re-executed: {:?}",
             result.nondeterministic.len(),
